@@ -112,8 +112,12 @@ class ForcingRng:
 
 
 class C06Gen(goldgen.Gen):
-    """Gen whose renderer separates a prefix minus from an operand that itself starts with a minus
-    (`- -x`; goldgen renders `--x`, which is the decrement token and not the program it means)"""
+    """Gen with (a) a renderer that separates a prefix minus from an operand that itself starts with a minus
+    (`- -x`; goldgen renders `--x`, which is the decrement token and not the program it means), and (b) the
+    constructs goldgen does not emit but the C06 proofs cover: untyped parameters, `uses` / `type` inside bodies,
+    `var .. absolute ..`, annotations in front of fields"""
+    EXTRA_FORMS = 3          # uses / type / var-absolute inside a body
+
     def render_expr(self, e, min_level=0, noparen=False):
         if e[0] == "pre" and e[1] == "-":
             inner = self.render_expr(e[2], goldgen.PRIMARY)
@@ -123,6 +127,61 @@ class C06Gen(goldgen.Gen):
             return s
         return super().render_expr(e, min_level, noparen)
 
+    def extra_stmt(self, depth, k):
+        r = self.r
+        ind = "  " * (depth + 1)
+        if k == 0:
+            us = r.sample(["aBase", "aUtil", "WFCore"], r.randint(1, 3))
+            return [ind + self.kw("uses") + " " + ", ".join(us)], ("AstUses", "uses", [])
+        if k == 1:
+            nm = "tLocal" + str(r.randint(0, 9))
+            tt, te = self.gen_type(2)
+            if "\n" in tt:
+                tt, te = "int4", ("AstTypeBasic", "int4", [])
+            return [ind + self.kw("type") + " " + nm + " : " + tt], ("AstTypeDeclaration", nm, [te])
+        nm = r.choice(["ov", "alias", "p"]) + str(r.randint(0, 9))
+        tt, te = self.gen_type(2)
+        if "\n" in tt:
+            tt, te = "int4", ("AstTypeBasic", "int4", [])
+        tgt = self.ident()
+        return [ind + self.kw("var") + " " + nm + " : " + tt + " " + self.kw("absolute") + " " + tgt], \
+            ("AstLocalVariableDeclaration", nm, [te, ("AstTerminal", tgt, [])])
+
+    def gen_stmt(self, depth=0):
+        if self.r.random() < 0.05:
+            return self.extra_stmt(depth, self.r.randrange(self.EXTRA_FORMS))
+        return super().gen_stmt(depth)
+
+    def gen_params(self, depth=0, force=False):
+        """as goldgen's, plus untyped parameters"""
+        r = self.r
+        if not force and r.random() < 0.35:
+            return "", []
+        ps, kids = [], []
+        for i in range(r.randint(0, 3)):
+            nm = r.choice(["A", "B", "Count", "pX", "Val"]) + str(i)
+            mod = r.choice(["", "", self.kw("inout") + " ", self.kw("var") + " ", self.kw("const") + " "])
+            if r.random() < 0.2:
+                ps.append("%s%s" % (mod, nm))
+                kids.append(("AstParameterDeclaration", nm, []))
+                continue
+            tt, te = self.gen_type(depth + 1) if depth < 2 else ("int4", ("AstTypeBasic", "int4", []))
+            if "\n" in tt:
+                tt, te = "int4", ("AstTypeBasic", "int4", [])
+            ps.append("%s%s : %s" % (mod, nm, tt))
+            kids.append(("AstParameterDeclaration", nm, [te]))
+        return "(" + ", ".join(ps) + ")", [("AstParameterDeclarationList", "param_decls", kids)]
+
+    def gen_decl(self):
+        lines, e = super().gen_decl()
+        if e[0] == "AstGlobalVariableDeclaration" and self.r.random() < 0.2:
+            ann = self.r.choice(["[Key]", "[Index, 2]", "[ Doc 'x y' ]", "[]"])
+            if self.r.random() < 0.5:
+                lines = [ann] + lines
+            else:
+                lines = [ann + " " + lines[0]] + lines[1:]
+        return lines, e
+
 
 class NestGen(C06Gen):
     """Gen whose block bodies start with a forced statement form"""
@@ -131,8 +190,10 @@ class NestGen(C06Gen):
         self.inner = None
 
     def stmt_of_kind(self, depth, k):
+        if k >= 17:
+            return self.extra_stmt(depth, k - 17)
         self.r.forced.append(k)
-        return self.gen_stmt(depth)
+        return goldgen.Gen.gen_stmt(self, depth)
 
     def gen_block(self, depth, n=None):
         if self.inner is not None and depth == 1:
@@ -145,7 +206,7 @@ class NestGen(C06Gen):
         return super().gen_block(depth, n)
 
 
-N_FORMS = 17
+N_FORMS = 17 + C06Gen.EXTRA_FORMS
 BLOCK_FORMS = range(8, 15)     # if for foreach while loop repeat switch
 
 
